@@ -167,7 +167,9 @@ Definition store (p : list text) (m : smode) (off : Z) (payload : list Z) (n : n
             match assoc_t x ch with
             | Some (NDir _) => None
             | Some (NFile old) =>
-                let new := if 0 <? off then write_at (Z.to_nat off) payload old
+                (* seek(off) alone writes nothing: zero-fill happens only when something is written *)
+                let new := if 0 <? off then
+                             match payload with [] => old | _ => write_at (Z.to_nat off) payload old end
                            else match m with MW => payload | MA => old ++ payload end in
                 Some (NDir (replace_t x (NFile new) ch))
             | None =>
